@@ -31,7 +31,7 @@ RULE = ('each run = a line sequence (<= 40 lines) built from a well-formed clear
         'signed by gpg and the real IsolatedGPGEnvironment behind a recording proxy; non-trivial = at least one armor '
         'line is present and a fault was applied; distinct = distinct (line-class sequence, outcome); coverage '
         'measure `states` = (loader state x line class) pairs reached according to the reference framing model')
-PLAN = {'quick': {'n': 6000, 'budget_s': 55, 'block': 100, 'det': 3},
+PLAN = {'quick': {'n': 30000, 'budget_s': 90, 'block': 100, 'det': 3},
         'thorough': {'n': 200000, 'budget_s': 1500, 'block': 500, 'det': 4}}
 ASSUMPTIONS = ['armor lines with trailing whitespace, CR-LF line ends and a missing final newline after END PGP SIGNATURE are a don\'t-care zone for completeness (they may be rejected), never for soundness',
                'a second signed block after the first may be reported as unsigned data or as misplaced armor']
